@@ -83,8 +83,8 @@ func RunSerial(b *abs.Built, dir string, seed int64, nclients, ncalls int) (*Ser
 	var mu sync.Mutex
 	var wg sync.WaitGroup
 	var firstErr error
-	// in every other run the first monitor is slow to acknowledge, which keeps transactions in flight
-	if seed%2 == 0 && len(in.Mons) > 0 {
+	// in two runs of three the first monitor is slow to acknowledge, which keeps transactions in flight
+	if seed%3 != 0 && len(in.Mons) > 0 {
 		in.Mons[0].AckDelay = time.Duration(100+rnd.Intn(900)) * time.Microsecond
 	}
 	// monitors established while the clients run: what such a monitor is told at first plus what it is told
@@ -94,7 +94,7 @@ func RunSerial(b *abs.Built, dir string, seed int64, nclients, ncalls int) (*Ser
 		init     map[string]interface{}
 	}
 	late := map[string]lateMon{}
-	nlate := 1 + rnd.Intn(2)
+	nlate := 2 + rnd.Intn(2)
 	lateSeed := rnd.Int63()
 	wg.Add(1)
 	go func() {
